@@ -90,7 +90,13 @@ def hydrogens(mol, seam, supplied=()):
             v.append(('hydrogen-bond-length/%s' % p.element, '%s-H %.4f A, table %.2f' % (akey(p), d, want)))
         by_parent.setdefault(akey(p), []).append((a.x, a.y, a.z))
         if id(p) in seam.rotamer_parents:
-            rot.add(akey(p))
+            # a frame-dependent rotamer is legitimate only where nothing defines the direction: not for a planar (steric number 3)
+            # atom whose single neighbour carries another heavy atom - that neighbour's substituents define the plane
+            nbs = [b for b in p.bonded_atoms if b.element != 'H']
+            definable = (getattr(p, 'steric_number', None) == 3 and len(nbs) == 1
+                         and any(x is not p and x.element != 'H' for x in nbs[0].bonded_atoms))
+            if not definable:
+                rot.add(akey(p))
     for pkey, hs in by_parent.items():
         for i in range(len(hs)):
             for j in range(i):
@@ -190,6 +196,12 @@ def inputs(tier):
         out.append(dict(src='ligand', name=name))
     for kind in ('ARG', 'HIS', 'ASN', 'GLN', 'TRP'):
         out.append(dict(src='flat', kind=kind))
+    out.append(dict(src='exact-metal', kind='HIS', ion='ZN'))
+    out.append(dict(src='exact-metal', kind='HIS', ion='FE'))
+    # the sp2 carbon of a guanidinium / amide lifted out of the plane of its substituents (0.10, 0.15, 0.25 A)
+    for kind in ('ARG', 'ASN', 'GLN'):
+        for pucker in (100, 150, 250):
+            out.append(dict(src='flat', kind=kind, pucker=pucker))
     # real ligands in their binding sites (fused, slightly non-planar rings)
     out.append(dict(src='corpus', d=corpus.cutout_desc('4DFR', 'B', 99, 9.0)))
     out.append(dict(src='corpus', d=corpus.cutout_desc('1HPX', 'A', 24, 9.0)))
@@ -298,10 +310,26 @@ def build(case, seed):
                 a.resname = case['alias']
         ALIASES[case['alias']] = case['base']
         return s
+    if case['src'] == 'exact-metal':
+        # a metal ion at EXACTLY the heavy-atom bonding distance (2.000 A) from a ring nitrogen, on its lone-pair axis; both atoms on
+        # binary-exact coordinates (multiples of 1/8 A) so that the squared distance is exactly 4: not bonded, the nitrogen keeps its hydrogen
+        s = gen.kind_struct(case['kind'], 'A', 1)
+        res = [a for a in s.atoms if a.resname == case['kind']]
+        at = {a.name: a for a in res}
+        n_, p_, q_ = {'HIS': ('NE2', 'CE1', 'CD2'), 'TRP': ('NE1', 'CD1', 'CE2')}[case['kind']]
+        mid = [(at[p_].xyz[i] + at[q_].xyz[i]) / 2 for i in range(3)]
+        R = gen.rotmat(gen._sub(list(at[n_].xyz), mid), [1.0, 0.0, 0.0])
+        for a in s.atoms:
+            v = [sum(R[i][j] * a.xyz[j] for j in range(3)) for i in range(3)]
+            a.x, a.y, a.z = (int(round(c * 1000)) for c in v)
+        s.translate((1125 - at[n_].x, 2250 - at[n_].y, -3500 - at[n_].z))
+        ion = gen.kind_struct(case['ion'], 'B', 11)
+        ion.atoms[0].x, ion.atoms[0].y, ion.atoms[0].z = 1125 + 2000, 2250, -3500
+        return gen.S(s.items + ['TER\n'] + ion.items).renumber_serials()
     if case['src'] == 'ligand':
         return gen.ligand(case['name'], 'L', 1, origin=(10000, 10000, 10000)).translate(gen.seed_offset(seed))
     if case['src'] == 'flat':
-        return c04.flat_fragment(case['kind']).translate(gen.seed_offset(seed))
+        return c04.flat_fragment(case['kind'], case.get('pucker', 0)).translate(gen.seed_offset(seed))
     return corpus.build(case['d'], seed)
 
 
@@ -406,6 +434,8 @@ def run_case(case, ctx, acc):
                 if 'host-debug' in mode:
                     continue      # geometry, complement and warnings only (equivariance is judged in the plain modes)
                 # equivariance
+                if case['src'] == 'exact-metal':
+                    continue      # (a contact at exactly the bonding threshold is exact in this one pose only)
                 small = case['src'] not in ('corpus', 'alias', 'capped')
                 rots = range(24) if (small or ctx.tier == 'thorough') else (0, 3, 7, 13, 18, 22)
                 tol = 1e-9 if unrounded else 0.002
